@@ -55,12 +55,18 @@ package parse
 //@     invariant 0 <= idx() <= len(t.q) && end == len(t.q) && bwEnd(t.q, 0) == bwEnd(t.q, idx())
 //@     decreases len(t.q) - idx()
 
+// A byte that does not change the bracket/parenthesis depth and is no escape.
+//@ pure func plainRe(c byte) bool = c != '[' && c != ']' && c != '(' && c != ')' && c != '\\'
+
 //@ func regexpParseUntil(str, delim string) (expr, rest string, err error)
 //@   props C07
 //@   ensures err == nil ==> len(expr) <= len(str) && expr == str[:len(expr)] && rest == str[len(expr):] && strings.HasPrefix(rest, delim)
-//@   ensures err != nil ==> err == errNoDelim
+//@   ensures err != nil ==> err == errNoDelim && expr == str && rest == ""
+//@   ensures forall p int :: 0 <= p < len(str) && (forall j int :: 0 <= j < p ==> plainRe(str[j])) && strings.HasPrefix(str[p:], delim) ==> err == nil && len(expr) <= p
 //@   loop 1:
 //@     invariant 0 <= i && 0 <= cs <= i && 0 - i <= cp <= i
+//@     invariant (forall j int :: 0 <= j < i && j < len(str) ==> plainRe(str[j])) ==> cs == 0 && cp == 0 && i <= len(str)
+//@     invariant forall p int :: 0 <= p < i && p < len(str) && (forall j int :: 0 <= j < p ==> plainRe(str[j])) ==> !strings.HasPrefix(str[p:], delim)
 //@     decreases len(str) + 2 - i
 
 //@ func (t *tokenizer) regexp() (k tok, n tokenizer)
